@@ -694,7 +694,7 @@ class Engine:
             _, d = self.under(t)
             elem = d['elem']
             k = self.kind(elem)
-            if name in ('io.EOF',):
+            if name in ('io.EOF', 'context.Canceled', 'context.DeadlineExceeded'):
                 # sentinel error: a unique non-nil interface value
                 self.nobj += 1
                 sobj = self.nobj
